@@ -344,7 +344,8 @@ def run_main(args, real_files: bool = False):
                     f.close()
             except Exception:
                 pass
-            with open(p, encoding="utf-8", errors="replace") as fh:
+            # newline="": what was written is what is read ("\r" and "\r\n" inside the output are data, not line ends)
+            with open(p, encoding="utf-8", errors="surrogatepass" if f is out else "replace", newline="") as fh:
                 texts.append(fh.read())
             os.unlink(p)
         return CliResult(rc, texts[0], texts[1], exc)
